@@ -223,12 +223,26 @@ def kernels(tier):
         # qubit later than this channel's end, then a shift, then a no-delay add
         progs.append([["add", g, "min-delay", 32, True], ["add", other, "no-delay", 16, False]])
         progs.append([["add", g, "min-delay", 32, False], ["shift", [], gb], ["add", other, "no-delay", 16, True], ["add", other, "min-delay", 16, False]])
+        # equal references set at *different times* on the targets of one
+        # multi-target pulse: every target's shift time is a barrier
         if not quick:
             progs.append([["shift", ["q0"], dig], ["shift", ["q0"], dig], ["shift", ["q0"], dig], ["shift", ["q0"], dig], ["add", "b", "min-delay", 16, False]])
             progs.append([["add", "b", "min-delay", 16, True], ["add", "b", "min-delay", 16, True], ["add", "b", "no-delay", 16, True], ["delay", "b", 16], ["add", "b", "min-delay", 16, True]])
             progs.append([["add", g, "min-delay", 16, True], ["add", "b", "min-delay", 16, True], ["target", "b", "q2"], ["add", "b", "min-delay", 16, True], ["add", g, "min-delay", 16, True]])
         for pr in progs:
             ks.append(("seq", dict(device=dev, channels=chans, program=pr)))
+        if dev != "digital":
+            # the late-shifted qubit must be able to sit anywhere in the
+            # iteration order of the target set: vary which qubit it is
+            for late in ("q0", "q1", "q2"):
+                others = [q for q in ("q0", "q1", "q2") if q != late]
+                ch2 = [chans[0], ("b", chans[1][1], late), chans[2]]
+                ks.append(("seq", dict(device=dev, channels=ch2, program=[
+                    ["add", "b", "min-delay", 32, False], ["shift", [late], dig], ["shift", others, dig],
+                    ["add", "a", "no-delay", 16, False]])))
+                ks.append(("seq", dict(device=dev, channels=ch2, program=[
+                    ["add", "b", "min-delay", 32, False], ["shift", others, dig], ["shift", [late], dig],
+                    ["add", "a", "no-delay", 16, True]])))
     return ks
 
 
